@@ -122,7 +122,7 @@ func c15Run(c c15Cfg) *c15Result {
 	vc := &visitCounter{ECALDebugger: interpreter.NewECALDebugger(en.vs), visits: map[uint64]int{}}
 	var dbg util.ECALDebugger = vc
 	en.erp.Debugger = dbg
-	contAt := map[string]int{} // visit count of the thread when the last continue was sent
+	_ = vc
 	if c.noBreakOnError {
 		dbg.BreakOnError(false)
 	}
@@ -173,11 +173,6 @@ func c15Run(c c15Cfg) *c15Result {
 			if run, ok := threads[id]["threadRunning"]; ok && !run.(bool) {
 				// reported suspended
 				r.nsusp++
-				tidNum, _ := strconv.ParseUint(id, 10, 64)
-				if at, sent := contAt[id]; sent && at == vc.visits[tidNum] {
-					r.probs = append(r.probs, "continue command lost: the thread is still reported as suspended at the same state visit after a continue addressed to it")
-					contAt[id] = -1
-				}
 				if d, err := dbg.HandleInput("describe " + id); err == nil && d != nil {
 					if m, ok := d.(map[string]interface{}); ok {
 						if n, ok := m["node"].(map[string]interface{}); ok {
@@ -196,7 +191,6 @@ func c15Run(c c15Cfg) *c15Result {
 						cmd = c.script[step]
 					}
 					step++
-					contAt[id] = vc.visits[tidNum]
 					if _, err := dbg.HandleInput(fmt.Sprintf("cont %s %s", id, cmd)); err != nil {
 						r.probs = append(r.probs, "cont failed: "+err.Error())
 					}
@@ -386,25 +380,44 @@ func init() {
 		breaks []int
 		script []string
 		stop   bool
+		nobe   bool
 	}
 	sels := []sel{
-		{0, []int{2}, nil, false},
-		{0, []int{1, 3}, nil, false},
-		{0, []int{2}, []string{"stepover"}, false},
-		{1, []int{2}, nil, false},
-		{1, []int{5}, []string{"stepin", "stepout"}, false},
-		{2, []int{3}, nil, false},
-		{3, nil, nil, false},
-		{4, []int{2}, []string{"stepout"}, false},
-		{0, []int{2}, nil, true},
-		{1, []int{2}, nil, true},
+		{0, []int{2}, nil, false, false},
+		{0, []int{1, 3}, nil, false, false},
+		{0, []int{2}, []string{"stepover"}, false, false},
+		{1, []int{2}, nil, false, false},
+		{1, []int{5}, []string{"stepin", "stepout"}, false, false},
+		{2, []int{3}, nil, false, false},
+		{3, nil, nil, false, false},
+		{4, []int{2}, []string{"stepout"}, false, false},
+		{0, []int{2}, nil, true, false},
+		{1, []int{2}, nil, true, false},
 	}
+	// the same resume-only configurations with break-on-error off: there every
+	// suspension episode needs exactly one continue, so the sequence of
+	// suspension lines (and thereby the number of continues the console had to
+	// send) must equal the one derived from the line trace under EVERY schedule;
+	// a continue that is lost and has to be repeated shows up as an extra entry
+	var extra []sel
+	for _, s := range sels {
+		if len(s.script) == 0 && !s.stop && len(s.breaks) > 0 {
+			x := s
+			x.nobe = true
+			extra = append(extra, x)
+		}
+	}
+	extra = append(extra, sel{prog: 4, breaks: []int{2, 5}, nobe: true}, sel{prog: 5, breaks: []int{1, 3}, nobe: true})
+	sels = append(sels, extra...)
 	for _, s := range sels {
 		s := s
-		cfg := c15Cfg{prog: s.prog, breaks: s.breaks, script: s.script, stop: s.stop}
+		cfg := c15Cfg{prog: s.prog, breaks: s.breaks, script: s.script, stop: s.stop, noBreakOnError: s.nobe}
 		name := fmt.Sprintf("sched-%s-b%v-%s", c15Progs[s.prog].name, strings.Trim(strings.Replace(fmt.Sprint(s.breaks), " ", ",", -1), "[]"), strings.Join(s.script, ","))
 		if s.stop {
 			name += "-stop"
+		}
+		if s.nobe {
+			name += "-exactlines"
 		}
 		register(&Scenario{Prop: "C15", Name: name, Quick: 2, Thor: 3, FreeQuick: 2, FreeThor: 2, ThorShards: 4,
 			Desc: "all schedules within the bound of: " + cfg.String(),
@@ -412,8 +425,17 @@ func init() {
 				var probs []string
 				body := func() {
 					probs = nil
+					var trace []int
+					if cfg.noBreakOnError {
+						trace = c15LineTrace(cfg.prog)
+					}
 					r := c15Run(cfg)
 					probs = r.probs
+					if cfg.noBreakOnError && len(probs) == 0 {
+						if want := c15Expected(trace, cfg.breaks); fmt.Sprint(want) != fmt.Sprint(r.suspLines) {
+							probs = append(probs, fmt.Sprintf("suspension episodes differ: the console had to answer suspensions at lines %v, the program has suspensions at lines %v (a repeated line means a continue was lost and had to be sent again)", r.suspLines, want))
+						}
+					}
 				}
 				return body, c15Check(func() []string { return probs })
 			}})
